@@ -201,6 +201,16 @@ def gen_serve_bounds(rng, blocksizes):
                     for n in sorted(set([0, 1, max(0, lim - 1), lim, lim + 1, lim + 2, room // unit, room // unit + 1, (bs - 64) // unit, 2**32 - 1] + wraps)):
                         raw = raw_frame(0, (1 if mem16 else 0) | (2 if serial else 0), 0, rng.randrange(65536), rng.randrange(2**32), n, [])
                         yield serve_line(serial, mem16, rng.randrange(2), bs, [], wire(serial, raw), verdicts(rng, 1))
+                    # ... and with the other checksum option bits (a read request may announce a payload checksum for its empty payload: the
+                    # header is then longer and the room for the reply smaller), on both transports
+                    for opts in (0, 2, 4, 6):
+                        hlx = 12 + (2 if opts & 2 else 0) + (2 if opts & 4 else 0)
+                        if room < hlx:
+                            continue
+                        limx = (room - hlx) // unit
+                        for n in sorted(set([max(0, limx - 1), limx, limx + 1, limx + 2, lim, lim + 1])):
+                            raw = raw_frame(0, (1 if mem16 else 0) | opts, 0, rng.randrange(65536), rng.randrange(2**32), n, [])
+                            yield serve_line(serial, mem16, rng.randrange(2), bs, [], wire(serial, raw), verdicts(rng, 1))
                 # write requests whose frame length is around the receive limit
                 for total in range(max(0, room - 3), room + 4):
                     hl2 = 16 if serial else 12
